@@ -7,36 +7,41 @@ From Coq Require Import String NArith Bool List Lia.
 From Verif Require Import Model.FrrMgr Model.Debounce Proofs.DebounceP Proofs.FrrMgrP.
 Import ListNotations.
 
+Inductive mev := EOp (o : mop) | EFire (ok : bool) | EReapply.
+
 Section Compose.
   Context {C : Type}.
   Variable gen : list session -> list bfdprof -> string -> option C.
   Variable xr : bool.
   Variable code : C -> N.            (* configurations as the debouncer compares them (DeepEqual = equality of content) *)
 
-  (* an interleaving of manager operations and reload attempts *)
-  Fixpoint mevents (st : mstate) (last : option C) (l : list (mop + bool)) : mstate * list ev * option C :=
+  (* an interleaving of manager operations, reload attempts and re-apply requests (frr.go validateReload) *)
+  Fixpoint mevents (st : mstate) (last : option C) (l : list mev) : mstate * list ev * option C :=
     match l with
     | [] => (st, [], last)
-    | inl o :: r =>
+    | EOp o :: r =>
         let '(st', _, c) := mstep gen xr st o in
         let '(st'', evs, last') := mevents st' (match c with Some _ => c | None => last end) r in
         (st'', match c with Some x => Submit (code x) :: evs | None => evs end, last')
-    | inr b :: r =>
+    | EFire b :: r =>
         let '(st'', evs, last') := mevents st last r in (st'', Fire b :: evs, last')
+    | EReapply :: r =>
+        let '(st'', evs, last') := mevents st last r in (st'', ReapplyOld :: evs, last')
     end.
 
-  Fixpoint ops_of (l : list (mop + bool)) : list mop :=
-    match l with [] => [] | inl o :: r => o :: ops_of r | inr _ :: r => ops_of r end.
+  Fixpoint ops_of (l : list mev) : list mop :=
+    match l with [] => [] | EOp o :: r => o :: ops_of r | _ :: r => ops_of r end.
 
   Lemma mevents_mrun l : forall st last st' evs last',
     mevents st last l = (st', evs, last') ->
     exists oks, mrun gen xr st last (ops_of l) = (st', oks, last').
   Proof.
-    induction l as [|[o|b] r IH]; intros st last st' evs last' H; simpl in *.
+    induction l as [|[o|b|] r IH]; intros st last st' evs last' H; simpl in *.
     - inversion H; subst. exists []; reflexivity.
     - destruct (mstep gen xr st o) as [[st1 ok] c] eqn:E.
       destruct (mevents st1 _ r) as [[st2 evs2] last2] eqn:E2. inversion H; subst.
       destruct (IH _ _ _ _ _ E2) as (oks & R). rewrite R. exists (ok :: oks); reflexivity.
+    - destruct (mevents st last r) as [[st2 evs2] last2] eqn:E2. inversion H; subst. apply (IH _ _ _ _ _ E2).
     - destruct (mevents st last r) as [[st2 evs2] last2] eqn:E2. inversion H; subst. apply (IH _ _ _ _ _ E2).
   Qed.
 
@@ -44,13 +49,14 @@ Section Compose.
     mevents st last l = (st', evs, last') -> d = option_map code last ->
     last_submit_from d evs = option_map code last'.
   Proof.
-    induction l as [|[o|b] r IH]; intros st last d st' evs last' H Hd; simpl in *.
+    induction l as [|[o|b|] r IH]; intros st last d st' evs last' H Hd; simpl in *.
     - inversion H; subst. reflexivity.
     - destruct (mstep gen xr st o) as [[st1 ok] c] eqn:E.
       destruct (mevents st1 _ r) as [[st2 evs2] last2] eqn:E2. inversion H; subst.
       destruct c as [x|]; simpl.
       + eapply IH; [exact E2|reflexivity].
       + eapply IH; [exact E2|reflexivity].
+    - destruct (mevents st last r) as [[st2 evs2] last2] eqn:E2. inversion H; subst. simpl. eapply IH; [exact E2|reflexivity].
     - destruct (mevents st last r) as [[st2 evs2] last2] eqn:E2. inversion H; subst. simpl. eapply IH; [exact E2|reflexivity].
   Qed.
 
@@ -77,4 +83,17 @@ Proof.
   intros Hh H R T Nl Hc. destruct (mevents_mrun gen_frr true code l _ _ _ _ _ H) as (oks & M).
   destruct (frr_history_in_sync _ _ _ _ Hh M) as [_ [[X _]|A]]; [congruence|].
   destruct (mgr_debounce_latest gen_frr true code l st evs last sigma H R) as [_ Ap]. rewrite (Ap T), A, Hc. reflexivity.
+Qed.
+
+(* [code] stands for the content the debouncer compares with reflect.DeepEqual: it must be injective, otherwise the
+   model would drop a submission the code does not.  With an injective code the applied configuration IS c. *)
+Theorem frr_mgr_latest_applied_inj (code : frr * list bfdprof * string -> N) l st evs last sigma c :
+  (forall x y, code x = code y -> x = y) ->
+  hist_ok gen_frr true good_frr minit (ops_of l) ->
+  mevents gen_frr true code minit None l = (st, evs, last) -> run init evs = Some sigma -> timer sigma = false ->
+  last <> None -> cfg_of gen_frr st = Some c ->
+  applied sigma = Some (code c) /\ forall c', applied sigma = Some (code c') -> c' = c.
+Proof.
+  intros Hinj Hh H R T Nl Hc. pose proof (frr_mgr_latest_applied code l st evs last sigma c Hh H R T Nl Hc) as A.
+  split; [exact A|]. intros c' A'. rewrite A in A'. inversion A'. symmetry. apply Hinj. assumption.
 Qed.
